@@ -39,6 +39,7 @@ pub static INFO: PropInfo = PropInfo {
         ("interference_only_runs", 10),
         ("clean_relay_runs", 5),
         ("runs_with_same_id_twin", 20),
+        ("silenced_client_timed_out", 5),
     ],
     engines_quick: &["e1"],
     engines_thorough: &["e1", "e3"],
@@ -126,6 +127,12 @@ struct World {
     /// per id: last event was Connected?
     ev_state: HashMap<u64, bool>,
     server_closed: HashMap<u64, (u64, &'static str)>,
+    /// (peer, generation): the relay black-holes every genuine server->client datagram of this peer
+    /// (as if the Disconnect and everything after it were lost) and keeps replaying a stale handshake
+    /// datagram to it instead
+    silenced: Option<(usize, u32)>,
+    /// first server->client datagram seen per (peer, generation): a handshake reply (challenge)
+    stale: HashMap<(usize, u32), Vec<u8>>,
 }
 
 fn bind() -> std::io::Result<UdpSocket> {
@@ -289,6 +296,8 @@ fn one_run_inner(ctx: &Ctx, out: &mut Outcome, run_seed: u64) {
         resend_ms,
         ev_state: HashMap::new(),
         server_closed: HashMap::new(),
+        silenced: None,
+        stale: HashMap::new(),
     };
     let n_clients = r.urange(1, max_clients.min(5));
     for k in 0..n_clients {
@@ -380,6 +389,14 @@ fn one_run_inner(ctx: &Ctx, out: &mut Outcome, run_seed: u64) {
                         let who = match r.below(3) {
                             0 => {
                                 w.server.disconnect(id);
+                                // sometimes: the Disconnect datagram and everything after it is lost and an
+                                // on-path party keeps replaying a stale handshake datagram to the client
+                                let g = w.peers[k].generation;
+                                if w.silenced.is_none() && secure && !clean_relay && w.stale.contains_key(&(k, g)) && w.tick + (timeout_ms + 2500) / dt < settle_from && r.chance(1, 2) {
+                                    w.silenced = Some((k, g));
+                                    out.count("silenced_with_stale_handshake_replay");
+                                    w.log(format!("SILENCE server->client for peer {} and replay its stale handshake datagram", k));
+                                }
                                 "server_app"
                             }
                             1 => {
@@ -409,6 +426,39 @@ fn one_run_inner(ctx: &Ctx, out: &mut Outcome, run_seed: u64) {
             }
         }
 
+        // ---- silenced peer: stale handshake replays must not postpone its timeout ------------------
+        if let Some((k, g)) = w.silenced {
+            if w.peers[k].generation != g || !faults_on {
+                w.silenced = None;
+            } else {
+                let every = ((timeout_ms / 3) / dt).max(1);
+                if w.tick % every == 0 {
+                    if let Some(b) = w.stale.get(&(k, g)).cloned() {
+                        out.count("stale_handshake_replays_injected");
+                        let at = w.tick;
+                        w.flight.push(InFlight { at, to_server: false, peer: k, generation: g, bytes: b, genuine: false });
+                    }
+                }
+                let gone = w.peers[k].client.is_disconnected() && w.peers[k].transport.disconnect_reason().is_some();
+                if gone {
+                    out.count("silenced_client_timed_out");
+                    w.silenced = None;
+                } else if w.now_ms > w.peers[k].last_genuine_delivered_ms[1] + timeout_ms + 1000 + 3 * dt {
+                    let id = w.peers[k].id;
+                    let last = w.peers[k].last_genuine_delivered_ms[1];
+                    viol(
+                        ctx,
+                        out,
+                        &w,
+                        run_seed,
+                        "C20/timeout-postponed-by-replayed-handshake/client",
+                        "a disconnect decided by the server ends the session on the client side too (through its timeout when the disconnect datagram is lost); replayed datagrams do not postpone it",
+                        format!("client {}: the last genuine server datagram was delivered at {} ms, only replays of a stale handshake datagram since; at {} ms (timeout {} s) the client still reports connected", id, last, w.now_ms, timeout_s),
+                    );
+                    return;
+                }
+            }
+        }
         // ---- transports --------------------------------------------------------------------------
         // the application advances the message layer, then the transport (README usage order)
         w.server.update(Duration::from_millis(dt));
@@ -754,6 +804,13 @@ fn short_reason(r: DisconnectReason) -> String {
 #[allow(clippy::too_many_arguments)]
 fn relay_in(w: &mut World, r: &mut Rng, cfg: &RelayCfg, faults_on: bool, to_server: bool, peer: usize, generation: u32, bytes: &[u8], out: &mut Outcome, acted: &mut bool) {
     let tick = w.tick;
+    if !to_server {
+        w.stale.entry((peer, generation)).or_insert_with(|| bytes.to_vec());
+        if w.silenced == Some((peer, generation)) {
+            out.count("relay_blackholed_for_silenced_peer");
+            return;
+        }
+    }
     if std::env::var("RV_C20_DEBUG").is_ok() && !faults_on {
         w.log(format!("relay {} peer {} len {}", if to_server { "->S" } else { "->C" }, peer, bytes.len()));
     }
@@ -802,7 +859,9 @@ fn relay_in(w: &mut World, r: &mut Rng, cfg: &RelayCfg, faults_on: bool, to_serv
     }
     if r.chance(cfg.replay, 100) && !w.history.is_empty() {
         let (ts, pk, b) = w.history[r.usize_below(w.history.len())].clone();
-        if pk < w.peers.len() {
+        // never towards a silenced peer: a replay of a session datagram it never received would be a
+        // legitimate first arrival of an authentic packet and refresh its timeout
+        if pk < w.peers.len() && !(!ts && w.silenced == Some((pk, w.peers[pk].generation))) {
             let g = w.peers[pk].generation;
             out.count("relay_replayed");
             *acted = true;
